@@ -29,6 +29,37 @@ def rows : List (String × Row) := [
   ("ConvertS", { sig := [Ty.error], stack := .defaultStack, dtag := .empty, src := .empty, msg := .origErr 0, err := .param 0, shortCircuit := true })
 ]
 
+/-- every store in the code a derivation runs: (function, written expression, where it lives) -/
+def stores : List (String × String × StoreClass) := [
+  ("CloneBase", "fRef", .local),
+  ("CloneBase", "clone.Source", .fresh),
+  ("CloneBase", "clone.detailTag", .fresh),
+  ("CloneBase", "clone.detailTag", .fresh),
+  ("CloneBase", "extMsg", .local),
+  ("CloneBase", "clone.Message", .fresh),
+  ("CloneBase", "clone.Message", .fresh),
+  ("CloneBase", "clone.factoryRef", .fresh),
+  ("CloneBase", "clone.srcError", .fresh),
+  ("CloneBase", "clone.stack", .fresh),
+  ("CloneBase", "clone.Source", .fresh),
+  ("CloneBase", "clone.stack", .fresh),
+  ("SourceInfo", "last", .local),
+  ("SourceInfo", "packageName", .local),
+  ("SourceInfo", "vals", .local),
+  ("SourceInfo", "vals", .local),
+  ("Metric", "i", .local),
+  ("Metric", "j", .local),
+  ("Metric", "theRest", .local),
+  ("makeStack", "pcs", .local),
+  ("makeStack", "stack[i]", .fresh),
+  ("pcToStackElem", "pc", .local),
+  ("Error", "result", .local),
+  ("Error", "result", .local),
+  ("Error", "result", .local),
+  ("Error", "result", .local),
+  ("Error", "result", .local)
+]
+
 /-- the `StackType` constants of stack.go -/
 def stackDepths : List (StackType × Nat) :=
   [(.noStack, 0), (.sourceStack, 4), (.shortStack, 16), (.defaultStack, 32)]
